@@ -26,7 +26,7 @@ LAYOUTS = ((1, "AA+BB"), (2, "AABB"), (4, "AABBCRCI"), (4, "STOKE"))
 
 def REQUIRED(tier):
     return ["files_generated", "files_in_domain", "whole_file_checks", "position_requests", "regime:unaligned_start", "regime:crosses_subint", "plan_checks", "reduction_checks",
-            "header_type_checks", "band:ascending", "band:descending", "layout:AABBCRCI", "layout:STOKE", "mutation_checks", "regime:partial_last_subint", "regime:chan_bw_card_disagrees_with_dat_freq", "regime:path_previously_held_another_file", "regime:unit_scales_nonzero_offsets"]
+            "header_type_checks", "band:ascending", "band:descending", "layout:AABBCRCI", "layout:STOKE", "mutation_checks", "regime:partial_last_subint", "regime:chan_bw_card_disagrees_with_dat_freq", "regime:path_previously_held_another_file", "regime:unit_scales_nonzero_offsets", "plan:allocator_option", "subband_requests"]
 
 
 def cases(tier, seed):
@@ -45,7 +45,7 @@ def _gen(case, ctx, path=None):
     nsblk = int(rng.choice([8, 16, 50]))
     nchan = int(rng.choice([4, 8, 16]))
     f0 = float(rng.uniform(700, 3000))
-    bw = float(rng.choice([0.5, 1.0, 8.0]))
+    bw = float(rng.choice([0.5, 1.0, 8.0, 0.1, 0.547]))
     freqs = f0 + bw * np.arange(nchan) * (1 if ascending else -1)
     raw = rng.integers(0, 1 << nbits, size=(nsub, nsblk, npol, nchan))
     scl = rng.uniform(0.5, 2.0, size=(nsub, npol, nchan))
@@ -206,6 +206,23 @@ def run_case(case, ctx):
     finally:
         if os.path.exists(tmp_out):
             os.unlink(tmp_out)
+    # ---- sub-band requests: read_block(fch1=centre of channel k, nchans=m) returns rows k..k+m-1 of the whole read, labelled with that centre
+    W = np.asarray(whole.data)
+    hf = np.asarray(rd.header.chan_freqs, dtype=np.float64)
+    for k in sorted({0, 1, nch // 2, nch - 1}):
+        for m in sorted({1, 2, nch - k}):
+            if k + m > nch:
+                continue
+            ctx.evaluated(); ctx.count("subband_requests")
+            st, ns = min(N - 1, nsblk - 1), min(3, N - min(N - 1, nsblk - 1))
+            try:
+                sb = rd.read_block(st, ns, fch1=float(hf[k]), nchans=m)
+            except Exception as exc:  # noqa: BLE001
+                ctx.violation(f"subband-read-raised:{type(exc).__name__}@{exc_site(exc)}", f"read_block({st},{ns},fch1=centre of channel {k},nchans={m}): {fmt_exc(exc)}", dict(one, request=[st, ns, k, m]))
+                return
+            if np.asarray(sb.data).shape != (m, ns) or not np.array_equal(np.asarray(sb.data), W[k : k + m, st : st + ns]):
+                ctx.violation("subband-read-values", f"read_block(fch1=centre of channel {k} = {hf[k]!r}, nchans={m}) does not return rows {k}..{k + m - 1} of the whole-file read (channel spacing {float(hf[1] - hf[0]) if nch > 1 else 0!r})", dict(one, request=[st, ns, k, m]))
+                return
     # ---- read_plan exactly once
     Wflat = np.asarray(whole.data).T
     for gulp in list(range(1, min(N, 40) + 2)) + [N, N + 3]:
@@ -215,7 +232,11 @@ def run_case(case, ctx):
             ctx.evaluated(); ctx.count("plan_checks")
             req = dict(one, plan=[gulp, skipback])
             try:
-                blocks = [(int(a), int(b), np.array(d, copy=True)) for a, b, d in rd.read_plan(gulp=gulp, skipback=skipback, quiet=True, description="v")]
+                pkw = {}
+                if gulp % 5 == 2:     # the documented allocator option (a caller-side buffer factory), as accepted by every read_plan
+                    pkw = {"allocator": (lambda nbytes: np.zeros(nbytes, dtype=np.uint8))}
+                    ctx.count("plan:allocator_option")
+                blocks = [(int(a), int(b), np.array(d, copy=True)) for a, b, d in rd.read_plan(gulp=gulp, skipback=skipback, quiet=True, description="v", **pkw)]
             except Exception as exc:  # noqa: BLE001
                 ctx.violation(f"read_plan-raised:{type(exc).__name__}@{exc_site(exc)}", f"read_plan(gulp={gulp},skipback={skipback}): {fmt_exc(exc)}", req)
                 return
